@@ -38,6 +38,8 @@ func (e *Engine) verifyFunc(key string) (vc *VC, err error) {
 	vc.declare("alloc@0", sInt)
 	vc.fact("(<= 0 alloc@0)")
 	vc.bitsExact = c.Attrs["bits"] == "exact"
+	vc.nativeArith = c.Attrs["arith"] == "native"
+	vc.axioms = strings.Fields(c.Attrs["axioms"])
 	st := &State{heaps: map[string]string{}, alloc: "alloc@0"}
 	fr := &Frame{eng: e, vc: vc, fn: fn, key: key, vals: map[ssa.Value]*Val{}, st: st, reach: "true", contract: c, top: true,
 		overflow: c.Attrs["overflow"] == "check"}
